@@ -820,7 +820,8 @@ def smt_expr_to_str(  # noqa: C901
         kind = f.decl().kind()
 
         if kind == z3.Z3_OP_RE_LOOP:
-            op = f"(_ re.loop {f.params()[0]} {f.params()[1]})"
+            # The upper bound is optional: `(_ re.loop 2)` has a single parameter.
+            op = f"(_ re.loop {' '.join(map(str, f.params()))})"
         elif kind == z3.Z3_OP_RE_POWER:
             op = f"(_ re.^ {f.params()[0]})"
         elif f.decl().kind() in op_strings:
